@@ -1767,13 +1767,16 @@ func (kmc *KeystoreManagerForPoC) ChangePrivPassphrase(oldPrivPass, newPrivPass 
 		return err
 	}
 
+	// the re-encrypted private crypto key of every keystore, as stored by the transaction
+	newCryptoKeyPrivEnc := make(map[*AddrManager][]byte)
 	err = db.Update(kmc.db, func(dbTransaction db.DBTransaction) error {
 		for _, addrManager := range kmc.managedKeystores {
 			amBucket := dbTransaction.FetchBucket(addrManager.storage)
-			err := addrManager.changePrivPassphrase(amBucket, oldPrivPass, newMasterPrivKey)
+			cPrivKeyEnc, err := addrManager.changePrivPassphrase(amBucket, oldPrivPass, newMasterPrivKey)
 			if err != nil {
 				return err
 			}
+			newCryptoKeyPrivEnc[addrManager] = cPrivKeyEnc
 		}
 		return nil
 	})
@@ -1799,20 +1802,9 @@ func (kmc *KeystoreManagerForPoC) ChangePrivPassphrase(oldPrivPass, newPrivPass 
 			zero.Bytes(saltedPassphrase)
 		}
 
-		var cPrivKeyEnc []byte
-		err = db.View(kmc.db, func(dbTransaction db.ReadTransaction) error {
-			amBucket := dbTransaction.FetchBucket(addrManager.storage)
-			var err error
-			_, cPrivKeyEnc, err = fetchCryptoKeys(amBucket)
-			if err != nil {
-				return err
-			}
-			return nil
-		})
-		if err != nil {
-			return err
-		}
-		copy(addrManager.cryptoKeyPrivEncrypted, cPrivKeyEnc)
+		// no storage access after the commit: a failure here would report an error
+		// for a change that is already in the store
+		copy(addrManager.cryptoKeyPrivEncrypted, newCryptoKeyPrivEnc[addrManager])
 		addrManager.masterKeyPriv.Zero()
 		addrManager.masterKeyPriv = newMasterPrivKey
 		addrManager.privPassphraseSalt = passphraseSalt
